@@ -304,7 +304,7 @@ func (P *Program) globalObj(ex *Exec, g *ssa.Global) *Object {
 // ---------- calls ----------
 
 func (ex *Exec) callFunction(fn *ssa.Function, args []Value, bind []Value, site token.Pos) (ret Value) {
-	if len(ex.P.stubFns) > 0 && !ex.initMode && (ex.job == nil || !ex.job.NoStub) {
+	if len(ex.P.stubFns) > 0 && !ex.initMode && (ex.job == nil || ex.job.NoStub == "" || (ex.job.NoStub != "1" && !strings.Contains(fn.String(), ex.job.NoStub))) {
 		if z, ok := ex.P.stubFns[fn.String()]; ok {
 			pass := strings.HasSuffix(z, "+") // "+": the stub receives the function's arguments
 			z = strings.TrimSuffix(z, "+")
